@@ -56,9 +56,13 @@ func (fr *Frame) safety(kind string, ins ssa.Instruction, pc, cond string) strin
 	if cond == "true" {
 		return pc
 	}
-	if fr.top && fr.c != nil && (fr.c.Safety[kind] || fr.c.Safety["all"]) {
-		fr.callOrd["safety:"+kind]++
-		vc.addObl(&Obligation{Name: fmt.Sprintf("%s@%d", kind, fr.callOrd["safety:"+kind]), Kind: "safety", PC: pc, Goal: cond,
+	cf := fr
+	if fr.extracted {
+		cf = fr.topFrame()
+	}
+	if cf.top && cf.c != nil && (cf.c.Safety[kind] || cf.c.Safety["all"]) {
+		cf.callOrd["safety:"+kind]++
+		vc.addObl(&Obligation{Name: fmt.Sprintf("%s@%d", kind, cf.callOrd["safety:"+kind]), Kind: "safety", PC: pc, Goal: cond,
 			Src: fmt.Sprintf("%s check at %s", kind, vc.g.prog.Fset.Position(ins.Pos()))})
 	}
 	return fr.assume(pc, cond)
